@@ -429,6 +429,13 @@ class AxisCache:
             if kind == 'f': labs = [x + 0.5 for x in labs]
             stats['axis_order'][order] += 1
             prog = []; cur = len(labs)
+            if cur >= 2 and rng.random() < 0.3:
+                # a cached answer, then a derived axis whose own answer may differ, then the question again
+                a_ = rng.randint(0, cur - 1); b_ = min(cur, a_ + rng.randint(1, 2))
+                prog = [['query'], rng.choice([['slice', a_, b_], ['reverse'], ['copy'], ['take', [a_]]]), ['query']]
+                if prog[1][0] == 'slice': cur = b_ - a_
+                elif prog[1][0] == 'take': cur = 1
+                stats['cache_scenario']['query-derive-query'] += 1
             for _ in range(rng.randint(1, maxlen)):
                 f = rng.choice(['query', 'query', 'setitem', 'setvalues', 'sort', 'slice', 'reverse', 'take', 'copy'])
                 stats['cache_op'][f] += 1
@@ -534,7 +541,7 @@ class DatasetVars:
     @staticmethod
     def generate(rng, n, tier, stats):
         import props.c13 as c13
-        return c13.generate(rng, min(n, 60 if tier == 'quick' else 400), tier, stats)
+        return c13.generate(rng, min(n, 100 if tier == 'quick' else 600), tier, stats)
 
     @staticmethod
     def execute(c):
